@@ -365,6 +365,11 @@ var<private> p: i32 = 3;
 const K = vec4<i32>(7, 65535, -1, 32);
 const A = array<i32, 2>(5, 6);
 @compute @workgroup_size(1) fn main() { let v = K; o[0] = v.y + a[0]; o[1] = K[u32(a[1]) % 4u]; o[2] = A[u32(a[1]) % 2u]; }"""),
+("switch_all_break", ["switch", "finding:spv-switch-all-break-merge-unreachable"], HDR_U + """
+@compute @workgroup_size(1) fn main() {
+  switch a[0] { case 0u: { o[0] = 1u; break; } default: { o[0] = 2u; break; } }
+  o[1] = 5u;
+}"""),
 ("private_zero", ["private", "private_zero", "finding:spv-private-not-zeroed"], HDR_I + """
 var<private> p: i32;
 @compute @workgroup_size(1) fn main() { o[0] = p + a[0]; }"""),
